@@ -1,7 +1,8 @@
 """C19 - Verilog generation is a pure, repeatable function of the circuit.
 
 Histories over 1-3 circuits: whole-hierarchy generation, module text of a sub-block requested
-through different ancestors, the same generator object or a fresh one, a caller-supplied
+through different ancestors, a sub-block exported on its own under a forced module name, the same
+generator object or a fresh one, a caller-supplied
 createdStructures list, simulation steps in between, generation on a broken circuit that
 raises half-way (gen_crash) followed by generation on a healthy one.
 Oracles: the canonical text of a (circuit, request) pair is identical at every repetition
@@ -31,7 +32,7 @@ REAL = ['py4hw.rtl_generation.VerilogGenerator and module-level caches', 'py4hw.
 STUB = ['stimulus']
 ASSUMPTIONS = ['"identical text up to the order of declarations and the instance-unique module suffixes": canonicalisation sorts wire '
                'declaration lines per module and renames hex suffixes by first appearance']
-PROBES = ['system_text_elaborated', 'system_as_top', 'second_clock_domain', 'second_instance_compared', 'extended_between_generations', 'repeat_after_sim', 'repeat_after_other_circuit', 'repeat_after_crash', 'child_via_two_ancestors', 'fresh_vs_same_generator', 'sim_after_generation']
+PROBES = ['forced_top_name', 'system_text_elaborated', 'system_as_top', 'second_clock_domain', 'second_instance_compared', 'extended_between_generations', 'repeat_after_sim', 'repeat_after_other_circuit', 'repeat_after_crash', 'child_via_two_ancestors', 'fresh_vs_same_generator', 'sim_after_generation']
 
 INLINED = {'And2', 'Or2', 'Xor2', 'Nand2', 'Nor2', 'Not', 'Buf', 'Bit', 'Range', 'BitsLSBF', 'BitsMSBF', 'ConcatenateMSBF',
            'ConcatenateLSBF', 'Repeat', 'Constant', 'Mux2', 'Equal', 'EqualConstant', 'And', 'Or', 'Nor', 'Sub', 'Mul', 'SignedMul',
@@ -98,6 +99,9 @@ def gen(rs, tier, index):
         if r < 0.35:
             ops.append({'op': 'gen_hier', 'c': c, 'fresh': hr.random() < 0.5, 'created': hr.random() < 0.2,
                         'top': 'hw' if hr.random() < 0.2 else 'dut'})
+        elif r < 0.42:
+            # a sub-block exported on its own under a caller-chosen module name
+            ops.append({'op': 'gen_forced', 'c': c, 'pick': hr.randrange(1 << 20), 'name': hr.choice(['dut', 'top', 'export'])})
         elif r < 0.6:
             ops.append({'op': 'gen_child', 'c': c, 'pick': hr.randrange(1 << 20), 'via': hr.choice(['top', 'parent', 'self']), 'fresh': hr.random() < 0.5})
         elif r < 0.9:
@@ -193,6 +197,12 @@ def run(scn, log, st):
                     key = ('hier-hw', op['c'])
                     text = py4hw.VerilogGenerator(b.hw).getVerilogForHierarchy()
                     st.probe('system_as_top')
+                elif kind == 'gen_forced':
+                    cands = [o for o in seams.walk(b.dut) if not g.isInlinable(o) and not o.isPrimitive()] or [b.dut]
+                    o = cands[op['pick'] % len(cands)]
+                    key = ('forced', op['c'], o.getFullPath(), op['name'])
+                    text = py4hw.VerilogGenerator(o).getVerilogForHierarchy(forceName=op['name'])
+                    st.probe('forced_top_name')
                 elif kind == 'gen_hier':
                     key = ('hier', op['c'])
                     text = g.getVerilogForHierarchy(createdStructures=[]) if op.get('created') else g.getVerilogForHierarchy()
